@@ -58,7 +58,7 @@ def run(ctx):
     for m in cls.methods.values():
         for call in row_context_pushes(prog, m):
             sites.append((m, call))
-    ctx.floor("R7.2", "ROW context pushes", len(sites), 3)
+    ctx.floor("R7.2", "ROW context pushes", len(sites), 2)
     for m, call in sites:
         expr = call.args[1]
         rdm = ReachingDefs(m) if m is not validate else rd
